@@ -63,7 +63,9 @@ class VroomMon(Monitor):
         self.drawn = None
         self.obs["vroom_pulls_checked"] += 1
         if len(self.calls) != 1:
-            self.v("C13:not_exactly_one_categorical_draw_per_pull", calls=len(self.calls))
+            # the draw was not made through np.random.choice (or several were): the distribution cannot be observed;
+            # not a violation - the oracle floor on compared probabilities then makes the check inconclusive
+            self.obs["pulls_without_an_observable_categorical_draw"] += 1
             return
         aa, p, s = self.calls[0]
         idx = [(h, l) for h in range(1, self.sd + 1) for l in range(len(nl[h]))]
